@@ -316,8 +316,10 @@ def demo_defect_models(ctx):
 
 
 def run(ctx):
-    # private scratch directory: a concurrent invocation of the same check wipes build/<ID>
-    ctx.workdir = tempfile.mkdtemp(prefix=ctx.pid + "_", dir=core.BUILD)
+    # private scratch directory: a concurrent invocation of the same check must not wipe ours
+    # (core.Ctx makes one itself now; only an old shared build/<ID> is replaced)
+    if os.path.basename(ctx.workdir) == ctx.pid:
+        ctx.workdir = tempfile.mkdtemp(prefix=ctx.pid + "_", dir=core.BUILD)
     try:
         return _run(ctx)
     finally:
